@@ -241,6 +241,14 @@ class LocalStorageBackend(StorageBackend):
         logger.debug(f"Writing file: {path} ({len(content)} bytes)")
 
         full_path = self._resolve_path(path)
+        if full_path == self._real_base_path():
+            # '', '/', '.', 'data/..' ... resolve to the table root itself. The
+            # root is not a file, and the temp file for the atomic rename would
+            # be created in dirname(root) - the root's PARENT, outside the table.
+            raise ValueError(
+                f"Security Error: path '{path}' resolves to the table root itself; "
+                f"refusing to write (the temporary file would be created outside the table root)"
+            )
         dir_path = os.path.dirname(full_path)
         os.makedirs(dir_path, exist_ok=True)
 
